@@ -21,7 +21,9 @@ public:
     const MobilizedBody& b; int i; const Coefs* c; bool par, posOnly;
 };
 
-static void run(int nthreads, int mix, const Coefs& c, const Real* q, const Real* u, const Real* u2, const std::string& pre) {
+static double g_raceDev = 0;     // largest deviation between repeated multi-threaded evaluations and the first one
+
+static void run(int nthreads, int mix, const Coefs& c, const Real* q, const Real* u, const Real* u2, const std::string& pre, bool emit = true, std::vector<double>* vals = 0) {
     MultibodySystem sys; SimbodyMatterSubsystem matter(sys); GeneralForceSubsystem forces(sys);
     forces.setNumberOfThreads(nthreads);
     Body::Rigid body(MassProperties(1.5, Vec3(0.125, -0.25, 0), Inertia(0.75, 0.875, 1.0).shiftFromMassCenter(Vec3(0.125, -0.25, 0), 1.5)));
@@ -42,14 +44,18 @@ static void run(int nthreads, int mix, const Coefs& c, const Real* q, const Real
     for (int i = 0; i < 4; ++i) { s.updQ()[i] = q[i]; s.updU()[i] = u[i]; }
     sys.realize(s, Stage::Dynamics);                    // caches invalid: everything evaluated
     const Vector_<SpatialVec>& F = sys.getRigidBodyForces(s, Stage::Dynamics);
-    for (int b = 0; b < F.size(); ++b) outSV(pre + "a_F" + std::to_string(b), F[b]);
-    outVec(pre + "a_f", sys.getMobilityForces(s, Stage::Dynamics));
+    if (emit) { for (int b = 0; b < F.size(); ++b) outSV(pre + "a_F" + std::to_string(b), F[b]);
+                outVec(pre + "a_f", sys.getMobilityForces(s, Stage::Dynamics)); }
+    if (vals) { for (int b = 0; b < F.size(); ++b) for (int i = 0; i < 2; ++i) for (int j = 0; j < 3; ++j) vals->push_back(symfp::value(F[b][i][j]));
+                const Vector& mf = sys.getMobilityForces(s, Stage::Dynamics); for (int i = 0; i < mf.size(); ++i) vals->push_back(symfp::value(mf[i])); }
     for (int i = 0; i < 4; ++i) s.updU()[i] = u2[i];    // velocities change: position-only forces come from the cache
     sys.realize(s, Stage::Acceleration);
     const Vector_<SpatialVec>& F2 = sys.getRigidBodyForces(s, Stage::Dynamics);
-    for (int b = 0; b < F2.size(); ++b) outSV(pre + "b_F" + std::to_string(b), F2[b]);
-    outVec(pre + "b_f", sys.getMobilityForces(s, Stage::Dynamics));
-    outVec(pre + "b_udot", s.getUDot());
+    if (emit) { for (int b = 0; b < F2.size(); ++b) outSV(pre + "b_F" + std::to_string(b), F2[b]);
+                outVec(pre + "b_f", sys.getMobilityForces(s, Stage::Dynamics));
+                outVec(pre + "b_udot", s.getUDot()); }
+    if (vals) { for (int b = 0; b < F2.size(); ++b) for (int i = 0; i < 2; ++i) for (int j = 0; j < 3; ++j) vals->push_back(symfp::value(F2[b][i][j]));
+                const Vector& mf = sys.getMobilityForces(s, Stage::Dynamics); for (int i = 0; i < mf.size(); ++i) vals->push_back(symfp::value(mf[i])); }
 }
 
 int main(int argc, char** argv) {
@@ -62,5 +68,13 @@ int main(int argc, char** argv) {
         for (int i = 0; i < 4; ++i) { q[i] = in(S("q", i), 0.375 - 0.25 * i, i == 1 ? "coord" : "angle"); u[i] = in(S("u", i), 0.5 - 0.25 * i, "lin"); u2[i] = in(S("v", i), -0.375 + 0.5 * i, "lin"); }
         static const int T[] = {1, 2, 4, 16};
         for (int k = 0; k < 4; ++k) run(T[k], mix, c, q, u, u2, "T" + std::to_string(T[k]) + "_");
+        // repeated multi-threaded evaluations must all give the single-threaded values (a data race shows up intermittently)
+        int reps = atoi(argOr(argc, argv, 2, "12").c_str());
+        std::vector<double> ref; run(1, mix, c, q, u, u2, "", false, &ref);
+        for (int r = 0; r < reps; ++r) for (int k = 1; k < 4; ++k) {
+            std::vector<double> v; run(T[k], mix, c, q, u, u2, "", false, &v);
+            for (size_t i = 0; i < v.size() && i < ref.size(); ++i) { double d = std::fabs(v[i] - ref[i]) / (1.0 + std::fabs(ref[i])); if (d > g_raceDev) g_raceDev = d; }
+        }
+        out("race_dev_exceeds_1e9", g_raceDev > 1e-9 ? 1.0 : 0.0);
     });
 }
